@@ -306,6 +306,9 @@ func ruleP12Group(p *Prog, r *Report) {
 		els, ok2 := sliceLitElems(c.Call.Args[1])
 		okElem := ok2 && len(els) == 1 && rangeElemOf(els[0]) != nil && strip(rangeElemOf(els[0])) == ssa.Value(rs)
 		lk, isLk := strip(c.Call.Args[0]).(*ssa.Lookup)
+		if ex, isEx := strip(c.Call.Args[0]).(*ssa.Extract); isEx && ex.Index == 0 {
+			lk, isLk = ex.Tuple.(*ssa.Lookup) // the value of `group, ok := groups[h]`
+		}
 		okBase := isLk && lk.X == ssa.Value(groups) && sameValue(lk.Index, mu.Key)
 		only, _ := onlyLoopGuards(mu.Block())
 		r.check(isHashOfElem(mu.Key) && okElem && okBase, rule, "group:append", p.instrPos(mu), "groups[hash(r.Date())] = append(groups[same hash], r)", "a record is not appended to the group of the hash of its own date")
@@ -368,7 +371,9 @@ func ruleP12Group(p *Prog, r *Report) {
 					if lk2 := membershipTest(g.Cond); lk2 != nil && !g.Pol && sameValue(lk2.Index, lk.Index) {
 						eachInstr(run, func(in ssa.Instruction) {
 							if mu, ok := in.(*ssa.MapUpdate); ok && sameValue(mu.Map, lk2.X) && sameValue(mu.Key, lk.Index) && mu.Block().Dominates(vc.where()) {
-								if b, isB := constBool(mu.Value); isB && b {
+								// a presence test (comma-ok) is satisfied by any stored value;
+								// a test of the stored bool needs `true`
+								if b, isB := constBool(mu.Value); (isB && b) || lk2.CommaOk && isPresenceTest(g.Cond) {
 									once = true
 								}
 							}
@@ -748,4 +753,14 @@ func membershipTest(cond ssa.Value) *ssa.Lookup {
 		}
 	}
 	return nil
+}
+
+// isPresenceTest: cond is the ok of `_, ok := m[k]`.
+func isPresenceTest(cond ssa.Value) bool {
+	ex, ok := cond.(*ssa.Extract)
+	if !ok || ex.Index != 1 {
+		return false
+	}
+	lk, ok := ex.Tuple.(*ssa.Lookup)
+	return ok && lk.CommaOk
 }
